@@ -85,6 +85,9 @@ func C11(run *mon.Run) {
 	var wg sync.WaitGroup
 	sem := make(chan struct{}, 16)
 	for bi := 0; bi < nBase; bi++ {
+		if bi > 0 && bi <= soloWorkers {
+			wg.Wait() // the first workers run alone (see soloWorkers)
+		}
 		wg.Add(1)
 		sem <- struct{}{}
 		go func(bi int) {
